@@ -39,12 +39,36 @@ pub(crate) fn parse_blocks_from_comments(
     for partial_block in PartialBlocksIterator::new(comments) {
         match partial_block? {
             PartialBlock::Start(block_start) => {
+                #[cfg(feature = "verif")]
+                crate::verif_trace::emit(
+                    "push",
+                    serde_json::json!({"line": block_start.start_tag_position_range.start().line,
+                        "col": block_start.start_tag_position_range.start().character,
+                        "cmt": block_start.comment.source_range.start,
+                        "depth": block_starts.len() + 1}),
+                );
                 block_starts.push(block_start);
             }
             PartialBlock::End(block_end) => {
                 if let Some(block_start) = block_starts.pop() {
+                    #[cfg(feature = "verif")]
+                    crate::verif_trace::emit(
+                        "pop",
+                        serde_json::json!({"line": block_start.start_tag_position_range.start().line,
+                            "col": block_start.start_tag_position_range.start().character,
+                            "cmt": block_start.comment.source_range.start,
+                            "end_cmt": block_end.comment.source_range.start,
+                            "end_off": block_end.start_position,
+                            "depth": block_starts.len()}),
+                    );
                     blocks.push(block_end.into_block(block_start));
                 } else {
+                    #[cfg(feature = "verif")]
+                    crate::verif_trace::emit(
+                        "err_end",
+                        serde_json::json!({"end_cmt": block_end.comment.source_range.start,
+                            "end_off": block_end.start_position}),
+                    );
                     return Err(anyhow::anyhow!(
                         "Unexpected closed block at line {}, position {}",
                         block_end.comment.position_range.start.line,
@@ -55,6 +79,11 @@ pub(crate) fn parse_blocks_from_comments(
         }
     }
 
+    #[cfg(feature = "verif")]
+    crate::verif_trace::emit(
+        "pair_done",
+        serde_json::json!({"open": block_starts.len(), "blocks": blocks.len()}),
+    );
     if let Some(unclosed_block) = block_starts.pop() {
         return Err(anyhow::anyhow!(format!(
             "Block at line {} is not closed",
